@@ -8,7 +8,7 @@ from ..registries import handlers
 TITLE = "A quantized tensor's reported metadata always matches what it holds"
 
 RULES = {
-    "C06.R1": "size/stride provenance: reshaping handlers take both from the payload actually passed; preserving handlers reuse the operand's geometry",
+    "C06.R1": "size/stride provenance: reshaping handlers take both from the payload actually passed; preserving handlers reuse the operand's geometry (for the packed payload of sub-byte tensors: the re-wrap clause of C04.R5)",
     "C06.R2": "field carry: qtype, axis (group_size, zeropoint) of a re-wrapped tensor come from the source tensor",
     "C06.R3": "wrapper construction: every _make_wrapper_subclass call passes size, strides=stride, dtype=scale.dtype (uint8 for payload classes), device=data.device; device asserts present",
     "C06.R4": "moves: QBytes _to_copy keeps the payload dtype and converts the scale only; QBits _to_copy refuses dtype changes, moves payload/zero-point without dtype and rebuilds through create(); detach keeps the class",
@@ -61,6 +61,12 @@ def run(chk):
         from ..report import AliasedCheck
         from . import c14
         c14.run(AliasedCheck(chk, {"C14.R1": "C06.R9"}))
+    if chk.pid == "C06":
+        # "moves and copies never alter codes", "one code per element": the detach / clone / move re-wraps of the packed payload of a sub-byte
+        # tensor keep its bits, size and stride (the re-wrap clause of C04.R5; seed C09-51 changed the size a clone reports)
+        from ..report import TagFilteredAlias
+        from . import c04
+        c04.run(TagFilteredAlias(chk, {"C04.R5": "C06.R1"}, {"dispatch re-wrap"}, " - the payload of a copied QBitsTensor unpacks to a different number of codes than the tensor has elements"))
     scalar_scale_clause(chk)
     chk.assume("torch's wrapper-subclass contract: outer size/stride/dtype/device are exactly what _make_wrapper_subclass is given")
 
